@@ -325,6 +325,44 @@ def check_affine(case, out):
             if d > tol * 100 * scale_p:
                 out.fail("curve-invariance", klass, f"curve over {list(k2)} at {lv} differs from curve over {Ulib} at {lu} by {float(d):.3e}")
                 break
+        # the same reparametrisation applied in place to the knot vector of objects that were already evaluated:
+        # whatever they remember about the old parametrisation must not survive
+        for name, obj, fresh in (("Function", f1, f2), ("Curve", c1, c2)):
+            try:
+                live = obj.knotvector
+                if case["order"] == "shift-scale":
+                    live.shift(a).scale(s)
+                else:
+                    live.scale(s).shift(a)
+            except Exception as exc:
+                if not lib.from_library(exc):
+                    raise
+                continue
+            if [oracle.frac(x) for x in obj.knotvector] != L2:
+                out.cls(name + ".knotvector-not-live")
+                continue
+            out.cls(name + "-reparametrised-in-place")
+            for u in us:
+                lu = lib.conv_knot(u, num)
+                lv = f_lib(lu, a, s, case["order"])
+                if oracle.frac(lu) in bk:
+                    lv = list(k2)[U.index(oracle.frac(lu))]
+                try:
+                    v1, v2 = obj(lv), fresh(lv)
+                except Exception as exc:
+                    if not lib.from_library(exc):
+                        raise
+                    out.fail("in-place-reparametrisation", klass, f"{name} evaluated before {case['order']}(a={a}, s={s}) "
+                             f"of its own knot vector: evaluation at {lv} raised {type(exc).__name__}: {exc}")
+                    break
+                x1 = [oracle.frac(x) for x in lib.walk_numbers(v1)]
+                x2 = [oracle.frac(x) for x in lib.walk_numbers(v2)]
+                d = max([abs(x - y) for x, y in zip(x1, x2)] + [F(0) if len(x1) == len(x2) else F(1)])
+                if d > tol * 100 * scale_p:
+                    out.fail("in-place-reparametrisation", klass,
+                             f"{name} evaluated, then its knot vector {Ulib} mapped in place by {case['order']}(a={a}, s={s}): "
+                             f"value at {lv} differs from a fresh {name} over the mapped vector by {float(d):.3e}")
+                    break
     # normalize
     k3 = lib.KnotVector(list(Ulib))
     r = k3.normalize()
